@@ -102,7 +102,7 @@ Print Assumptions C10_reset_preserves.
    Full statement: *)
 Definition C10_inv_preserved_statement : Prop :=
   forall c fuel d s st, SInv c st -> SInv c (fst (exec c fuel d s st)).
-(* proved for LET (all expression forms), ERASE, DIM, CLEAR [,n], DEF FN; SWAP, MID$ and LSET/RSET are covered by
+(* proved for LET (all expression forms), SWAP, ERASE, DIM, CLEAR [,n], DEF FN; MID$= and LSET/RSET are covered by
    the correspondence tests and the oracle only (see design_notes/C10.md) *)
 Theorem C10_inv_preserved_partial : forall c fuel d s st, simple s -> SInv c st -> SInv c (fst (exec c fuel d s st)).
 Proof. exact exec_simple_inv. Qed.
